@@ -267,13 +267,14 @@ def minimise(sim, cfg, ops, finding: Finding):
 
 
 def write_replay(sim_name, prop, finding: Finding, seed, stratum, index, cfg, ops,
-                 hash_seed="0"):
+                 hash_seed="0", extra=None):
     d = os.path.join(OUT_DIR, "replays", prop)
     os.makedirs(d, exist_ok=True)
     tag = hashlib.sha256(finding.key_str().encode()).hexdigest()[:10]
     path = os.path.join(d, f"{tag}-s{seed}-{stratum}-{index}.json")
     with open(path, "w") as f:
         json.dump({
+            **(extra or {}),
             "sim": sim_name,
             "property": prop,
             "key": finding.key,
@@ -299,10 +300,61 @@ def _worker_init():
     faulthandler.dump_traceback_later(1500, exit=True)
 
 
-def pool(workers: int):
-    return ProcessPoolExecutor(max_workers=workers,
-                               mp_context=mp.get_context("fork"),
-                               initializer=_worker_init)
+def run_forked(jobs, workers, fn):
+    """Run fn(*job) for every job, each in a child forked from this (pristine)
+    process, at most `workers` at a time; results in job order.  One batch =
+    one process lifetime, so whatever process-global state the code under test
+    keeps is part of a batch's (repeatable) history and never leaks between
+    batches or depends on the worker count."""
+    import pickle
+    import tempfile
+    results = [None] * len(jobs)
+    running = {}
+    nxt = 0
+    tmpdir = tempfile.mkdtemp(prefix="verif-fork-", dir="/dev/shm" if os.path.isdir("/dev/shm") else None)
+    try:
+        while nxt < len(jobs) or running:
+            while nxt < len(jobs) and len(running) < workers:
+                path = os.path.join(tmpdir, f"{nxt}.pkl")
+                sys.stdout.flush()
+                sys.stderr.flush()
+                pid = os.fork()
+                if pid == 0:
+                    code = 0
+                    try:
+                        _worker_init()
+                        out = fn(*jobs[nxt])
+                        with open(path + ".tmp", "wb") as f:
+                            pickle.dump(out, f)
+                        os.replace(path + ".tmp", path)
+                    except BaseException:
+                        traceback.print_exc()
+                        code = 3
+                    finally:
+                        sys.stdout.flush()
+                        sys.stderr.flush()
+                        os._exit(code)
+                running[pid] = (nxt, path)
+                nxt += 1
+            pid, status = os.wait()
+            if pid not in running:
+                continue
+            i, path = running.pop(pid)
+            if status != 0 or not os.path.exists(path):
+                for q in running:
+                    try:
+                        os.kill(q, signal.SIGKILL)
+                    except OSError:
+                        pass
+                raise HarnessError(f"worker for job {i} {jobs[i][:4] if isinstance(jobs[i], tuple) else ''} "
+                                   f"died (status {status})")
+            with open(path, "rb") as f:
+                results[i] = pickle.load(f)
+            os.unlink(path)
+    finally:
+        import shutil
+        shutil.rmtree(tmpdir, ignore_errors=True)
+    return results
 
 
 def n_workers() -> int:
